@@ -4,12 +4,14 @@ import (
 	"context"
 	"fmt"
 	"strings"
+	"sync"
 	"sync/atomic"
 	"time"
 
 	"google.golang.org/protobuf/proto"
 	"google.golang.org/protobuf/types/known/wrapperspb"
 
+	"github.com/smart-core-os/sc-golang/internal/verifhook"
 	"github.com/smart-core-os/sc-golang/pkg/resource"
 	"github.com/smart-core-os/sc-golang/verifharness/lib"
 )
@@ -71,6 +73,20 @@ func (c xrunCase) key() string {
 }
 
 var xrunStuck atomic.Int64
+
+// xrunWriters: goroutine id of a case's writer -> how many listeners its Bus.Send has come to (the yield
+// point bus.send.beforeListener runs on the writer's goroutine).  Used for waiting only: after a move the
+// harness waits until the waiting send stands at the listener the model says it stands at.
+var xrunWriters sync.Map
+
+func xrunHook(point string) {
+	if point != "bus.send.beforeListener" {
+		return
+	}
+	if ctr, ok := xrunWriters.Load(verifhook.GoID()); ok {
+		ctr.(*atomic.Int64).Add(1)
+	}
+}
 
 func (c xrunCase) runCode(model string) (obs xrunObs) {
 	if xrunStuck.Load() > 4 {
@@ -156,6 +172,7 @@ func (c xrunCase) runCode(model string) (obs xrunObs) {
 	}
 	obs.Received = make([][]string, n)
 	var pending chan error
+	var visited *atomic.Int64 // listeners the pending write's Send has come to
 	pendingTok := ""
 	completed := 0
 	next := 1
@@ -205,7 +222,19 @@ func (c xrunCase) runCode(model string) (obs xrunObs) {
 			time.Sleep(w)
 			return
 		}
-		counts := strings.Split(out[strings.LastIndex(out, "@")+1:], "/")
+		tail := out[strings.LastIndex(out, "@")+1:]
+		if i := strings.Index(tail, "#"); i >= 0 {
+			// the waiting send stands at listener p: it has come to p+1 listeners
+			var p int64
+			if _, err := fmt.Sscanf(tail[i+1:], "%d", &p); err == nil && pending != nil && visited != nil {
+				if !waitCount(visited, p+1, pipeWait) {
+					obs.Unsynced, synced = true, false
+					return
+				}
+			}
+			tail = tail[:i]
+		}
+		counts := strings.Split(tail, "/")
 		var sum int64
 		for k := range c.Subs {
 			var want int64
@@ -251,8 +280,14 @@ func (c xrunCase) runCode(model string) (obs xrunObs) {
 			next++
 			obs.Started = append(obs.Started, tok)
 			ch := make(chan error, 1)
-			go func() { ch <- write(tok) }()
-			pending, pendingTok = ch, tok
+			ctr := new(atomic.Int64)
+			go func() {
+				id := verifhook.GoID()
+				xrunWriters.Store(id, ctr)
+				defer xrunWriters.Delete(id)
+				ch <- write(tok)
+			}()
+			pending, pendingTok, visited = ch, tok, ctr
 			mustReturn := !bpBehind(nth) // only lossy subscribers could be in its way
 			wait := 300 * time.Microsecond
 			switch {
@@ -300,7 +335,9 @@ func (c xrunCase) runCode(model string) (obs xrunObs) {
 				}
 			}
 		default:
-			got = take(k, pipeWait)
+			if got = take(k, pipeWait); got == "timeout" {
+				obs.Unsynced, synced = true, false // the run has left the model's schedule: go on by time
+			}
 		}
 		if pending != nil && got != "none" && got != "timeout" {
 			nth := next - 1
@@ -422,6 +459,8 @@ func runMixed(f lib.Flags, res *lib.Result, drv *lib.Driver) {
 		{[]string{"L", "B"}, f.N(5, 6)}, {[]string{"B", "L"}, f.N(5, 6)}, {[]string{"L", "B", "L"}, f.N(5, 6)},
 		{[]string{"B", "L", "B"}, f.N(4, 5)}, {[]string{"L", "L", "B"}, f.N(4, 5)}, {[]string{"B", "B"}, f.N(4, 5)},
 	}
+	verifhook.Set(xrunHook)
+	defer verifhook.Set(nil)
 	var cases []xrunCase
 	for gi, g := range cfgs {
 		alphabet := []string{"w"}
